@@ -19,17 +19,21 @@ class RefSyntaxError(Exception):
 _SRT_STAMP = re.compile(r'^(\d{2,}):(\d{2}):(\d{2}),(\d{3})$')
 
 
-def _srt_stamp(s):
-    m = _SRT_STAMP.match(s)
+_SRT_STAMP_LENIENT = re.compile(r'^(\d{2,}):(\d{2}):(\d{2})(?:,(\d{3}))?$')
+
+
+def _srt_stamp(s, strict=True):
+    m = (_SRT_STAMP if strict else _SRT_STAMP_LENIENT).match(s)
     if not m:
         raise RefSyntaxError('bad SRT timestamp %r' % s)
     h, mi, se, ms = m.groups()
+    ms = ms or '0'
     if int(mi) > 59 or int(se) > 59:
         raise RefSyntaxError('SRT minute/second field out of range %r' % s)
     return ((int(h) * 60 + int(mi)) * 60 + int(se)) * 1000000 + int(ms) * 1000
 
 
-def parse_srt(doc):
+def parse_srt(doc, strict=True):
     """Block grammar: index line, timing line, 1+ payload lines, blocks separated by one or
     more lines that are empty after stripping."""
     lines = doc.split('\n')
@@ -48,7 +52,7 @@ def parse_srt(doc):
         parts = lines[i].split('-->')
         if len(parts) != 2:
             raise RefSyntaxError('bad timing line %r' % lines[i])
-        start, end = _srt_stamp(parts[0].strip()), _srt_stamp(parts[1].strip())
+        start, end = _srt_stamp(parts[0].strip(), strict), _srt_stamp(parts[1].strip(), strict)
         i += 1
         payload = []
         while i < n and lines[i].strip() != '':
